@@ -1,6 +1,7 @@
 // C07, group "krylov": BiCGStab, BiCGStab(l), FGMRES(k), GMRES(k) on local CSR systems (NoneFilter / UnitFilter)
 #include "common/c07_case.hpp"
 #include "c07_lucky.hpp"
+#include "c07_config.hpp"
 using namespace c07;
 
 static int maxn() { const char* e = getenv("C07_MAXN"); int v = e ? atoi(e) : 60; return v < 3 ? 60 : v; }
@@ -14,5 +15,7 @@ int main(int argc, char** argv)
   tg.push_back({"krylov_big", [](Tape& t, Ctx& c) { target<G_KRYLOV, double, LocalBE>(t, c, {K_BICGSTAB, K_BICGSTABL, K_FGMRES, K_GMRES}, {3, 3, 2, 2}, 120); }, 96, 3, 120000});
   // exact (lucky) breakdown after one Krylov step: GMRES / FGMRES / IDR(s) must report success with the exact solution
   tg.push_back({"lucky", c07::lucky_case, 48, 1, 30000});
+  // limits configured through a PropertyMap section == limits configured through the setters
+  tg.push_back({"config", c07::config_case, 48, 1, 30000});
   return main_impl(argc, argv, tg);
 }
